@@ -10,7 +10,8 @@ Import ListNotations.
 Local Open Scope R_scope.
 
 Definition proved_names : list string :=
-  ["floor"; "ceil"; "trunc"; "fix"; "rint"; "round"; "around"; "sign"; "greater"; "greater_equal"; "less"; "less_equal"; "equal"; "not_equal"]%string.
+  ["floor"; "ceil"; "trunc"; "fix"; "rint"; "round"; "around"; "sign"; "greater"; "greater_equal"; "less"; "less_equal"; "equal"; "not_equal";
+   "logical_not"; "isfinite"; "isnan"; "isinf"; "isposinf"; "isneginf"; "isreal"; "iscomplex"]%string.
 Definition all_registered : bool := forallb (fun n => existsb (String.eqb n) gen_nograd) proved_names.
 
 Lemma proved_members_are_registered : forall n, In n proved_names -> In n gen_nograd.
@@ -36,7 +37,16 @@ Inductive model_of : string -> (R -> R) -> (R -> Prop) -> Prop :=
 | m_less c : model_of "less" (rlt c) (fun x => x = c)
 | m_less_equal c : model_of "less_equal" (rle c) (fun x => x = c)
 | m_equal c : model_of "equal" (req c) (fun x => x = c)
-| m_not_equal c : model_of "not_equal" (rneq c) (fun x => x = c).
+| m_not_equal c : model_of "not_equal" (rneq c) (fun x => x = c)
+(* logical_not x is x == 0; on the reals (finite floats) the predicates below are constant *)
+| m_logical_not : model_of "logical_not" (req 0) (fun x => x = 0)
+| m_isfinite : model_of "isfinite" (fun _ => 1) (fun _ => False)
+| m_isnan : model_of "isnan" (fun _ => 0) (fun _ => False)
+| m_isinf : model_of "isinf" (fun _ => 0) (fun _ => False)
+| m_isposinf : model_of "isposinf" (fun _ => 0) (fun _ => False)
+| m_isneginf : model_of "isneginf" (fun _ => 0) (fun _ => False)
+| m_isreal : model_of "isreal" (fun _ => 1) (fun _ => False)
+| m_iscomplex : model_of "iscomplex" (fun _ => 0) (fun _ => False).
 
 Lemma rneq_locally_const c x : x <> c -> locally_const (rneq c) x.
 Proof.
@@ -46,11 +56,14 @@ Qed.
 Lemma not_jump_non_integer x : ~ (exists z, x = IZR z) -> non_integer x.
 Proof. intros H z E. apply H. now exists z. Qed.
 
+Lemma const_locally_const (k x : R) : locally_const (fun _ => k) x.
+Proof. unfold locally_const. apply filter_forall. reflexivity. Qed.
+
 Lemma model_locally_const name f J x : model_of name f J -> ~ J x -> locally_const f x.
 Proof.
   intros [ ] H; auto using rfloor_locally_const, rceil_locally_const, rtrunc_locally_const, rrint_locally_const, not_jump_non_integer,
     rsign_locally_const, rgt_locally_const, rge_locally_const, rlt_locally_const, rle_locally_const, req_locally_const,
-    rneq_locally_const.
+    rneq_locally_const, const_locally_const.
 Qed.
 
 Theorem registered_piecewise_constant_functions_block_flow name f J :
